@@ -412,16 +412,85 @@ def check_registered(ctx: Ctx, inp) -> None:
                 return
 
 
+# ---- overrides through the pytest plugin ---------------------------------------------------------------------------
+
+
+@st.composite
+def pytest_override_case(draw):
+    tests = []
+    for _ in range(draw(st.integers(3, 6))):
+        override = draw(st.sampled_from([{"query": {"ver": "42"}}, {"cookies": {"sid": "COOKIE-OVR"}}, {"headers": {"X-Tenant": "OVR-TENANT"}}, {"path_parameters": {"id": "777"}},
+                                         {"query": {"ver": "42"}, "cookies": {"sid": "COOKIE-OVR"}, "headers": {"X-Tenant": "OVR-TENANT"}, "path_parameters": {"id": "777"}}]))
+        tests.append({"route": draw(st.sampled_from(["direct", "lazy"])), "override": override})
+    return {"declare_header": draw(st.sampled_from(["optional", "required"])), "declare_query": draw(st.sampled_from(["optional", "required"])), "declare_cookie": draw(st.sampled_from(["optional", "required"])),
+            "secured": None, "names": "plain", "tests": tests}
+
+
+def check_pytest_override(ctx: Ctx, inp) -> None:
+    """`@schema.override(...)` next to `@schema.parametrize()` / the lazy schema: every request of the test carries the values."""
+    import json
+    import os
+    import shutil
+    import subprocess
+    import sys
+    import tempfile
+
+    from vfw.core import ROOT, HarnessError
+    from vfw.harness import loopback
+
+    def script(req, ordinal):
+        if req.method == "POST":
+            return loopback.json_reply(201, {"id": 7})
+        return loopback.json_reply(200, {"id": 7})
+
+    server = loopback.shared(script)
+    workdir = tempfile.mkdtemp(prefix="vfw-c14-", dir="/var/tmp")
+    try:
+        spec = os.path.join(workdir, "spec.json")
+        with open(spec, "w") as fd:
+            json.dump({"doc": build_doc(inp), "url": server.url, "tests": inp["tests"]}, fd)
+        module = os.path.join(workdir, "test_generated.py")
+        shutil.copy(os.path.join(ROOT, "vfw", "harness", "pytest_c14_module.py"), module)
+        done = subprocess.run([sys.executable, "-m", "pytest", module, "-q", "-p", "no:cacheprovider", "--no-header", "--tb=short", "--continue-on-collection-errors", "--rootdir", workdir, "-o", "addopts="],
+                              capture_output=True, text=True, timeout=300, cwd=workdir, env=dict(os.environ, VFW_C14_SPEC=spec))
+        out = done.stdout + done.stderr
+    finally:
+        shutil.rmtree(workdir, ignore_errors=True)
+    log = server.snapshot()
+    if not any(r.header("X-Vfw-Test") == "sentinel" for r in log):
+        raise HarnessError(f"generated pytest module did not run: {out[-1500:]}")
+    for i, entry in enumerate(inp["tests"]):
+        reqs = [r for r in log if r.header("X-Vfw-Test") == str(i)]
+        ovr = entry["override"]
+        ctx.case(nontrivial=[inp, i] if reqs else None, classes=[f"route={entry['route']}", f"locations={len(ovr)}", f"requests>0={bool(reqs)}"], sample={"test": entry, "requests": [r.target for r in reqs[:4]]})
+        if not reqs:
+            ctx.disagree(f"pytest:{entry['route']}:test-sent-nothing", f"test {i} ({entry}) sent no request: {out[-600:]}", input=inp)
+            continue
+        for req in reqs:
+            is_get = req.path.startswith("/users/")
+            where = f"{req.method} {req.path} (test {i}, {entry['route']})"
+            q = dict(parse_qsl(req.query, keep_blank_values=True))
+            if "query" in ovr and q.get("ver") != "42":
+                ctx.disagree(f"pytest:{entry['route']}:query-override-not-applied", f"{where}: ver={q.get('ver')!r}", input=inp, request=req.as_json())
+            if "headers" in ovr and req.header("X-Tenant") != "OVR-TENANT":
+                ctx.disagree(f"pytest:{entry['route']}:header-override-not-applied", f"{where}: X-Tenant={req.header('X-Tenant')!r}", input=inp, request=req.as_json())
+            if "cookies" in ovr and is_get and "sid=COOKIE-OVR" not in (req.header("Cookie") or ""):
+                ctx.disagree(f"pytest:{entry['route']}:cookie-override-not-applied", f"{where}: Cookie={req.header('Cookie')!r}", input=inp, request=req.as_json())
+            if "path_parameters" in ovr and is_get and req.path != "/users/777":
+                ctx.disagree(f"pytest:{entry['route']}:path-override-not-applied", f"{where}", input=inp, request=req.as_json())
+
+
 SUBS = [
     Sub("engine", collect=True, fn=check_engine, strategy=engine_case, quick=(16, 10), thorough=(16, 400), shrink_quick=False, timeout_quick=600, timeout_thorough=3400),
+    Sub("pytest_override", collect=True, fn=check_pytest_override, strategy=pytest_override_case, quick=(8, 3), thorough=(16, 40), shrink_quick=False, timeout_quick=600, timeout_thorough=3400),
     Sub("auth_registered", fn=check_registered, strategy=registered_case, quick=(4, 400), thorough=(16, 6000), timeout_quick=300, timeout_thorough=3000),
     Sub("auth_cache", fn=check_schedule, strategy=schedule_case, quick=(8, 300), thorough=(16, 8000), timeout_quick=600, timeout_thorough=3400),
 ]
-FLOOR = {"auth_registered": 1000, "engine": 100, "auth_cache": 1000, "auth_cache:contended": 200}
+FLOOR = {"pytest_override": 40, "auth_registered": 1000, "engine": 100, "auth_cache": 1000, "auth_cache:contended": 200}
 
 MANIFEST = {
     "category": "exploration",
     "technique": "Hypothesis-generated credential / override configurations run through the real engine against a recording loopback API; owned-schedule exploration (Hypothesis draws the interleaving) of the auth-token cache",
-    "text": "Engine level: drawn combinations of configured headers (incl. Authorization), basic auth and query / header / cookie / path overrides over documents whose operations declare same-named parameters (optional, required or not at all) and optionally a security requirement are run in all phases (1-3 workers, both modes, with and without ignored_auth); every received request that is not a check-derived probe must carry the user's values. Cache level: CachingAuthProvider and KeyedCachingAuthProvider are driven by 2-4 threads whose interleaving at the injected lock, timer and provider boundaries is drawn by Hypothesis while the clock advances; the underlying provider may be called at most once per key and refresh interval. Registered level: providers registered through schema.auth() / schemathesis.auth() with a drawn refresh_interval and cache_by_key (string or integer keys) are called along drawn timelines with a clock of our own: at most one fetch per key and configured interval. The engine runs also draw credentials supplied by a registered provider class or a `requests` auth object (set_from_requests) and require them on every request, with or without a body.",
+    "text": "Engine level: drawn combinations of configured headers (incl. Authorization), basic auth and query / header / cookie / path overrides over documents whose operations declare same-named parameters (optional, required or not at all) and optionally a security requirement are run in all phases (1-3 workers, both modes, with and without ignored_auth); every received request that is not a check-derived probe must carry the user's values. Cache level: CachingAuthProvider and KeyedCachingAuthProvider are driven by 2-4 threads whose interleaving at the injected lock, timer and provider boundaries is drawn by Hypothesis while the clock advances; the underlying provider may be called at most once per key and refresh interval. Registered level: providers registered through schema.auth() / schemathesis.auth() with a drawn refresh_interval and cache_by_key (string or integer keys) are called along drawn timelines with a clock of our own: at most one fetch per key and configured interval. Overrides written as @schema.override(...) next to @schema.parametrize() and on schemathesis.pytest.from_fixture() are executed by a real pytest subprocess against the loopback API: every request of the test carries the values. The engine runs also draw credentials supplied by a registered provider class or a `requests` auth object (set_from_requests) and require them on every request, with or without a body.",
     "note": "Interleavings inside the cache are owned only at the injected boundaries; auth providers registered through schemathesis.auth() at several scopes are covered by C19, not here.",
 }
